@@ -175,6 +175,25 @@ def run_shard(shard, tier, seed, acc) -> None:
             want = ndr64.getkey_request(g.target_sd, g.root_key_id, g.l0_key_id, g.l1_key_id, g.l2_key_id)
             if bytes(g.pack()) != want:
                 acc.violate("GetKey.repack.bytes", ["GetKey-repack", i_ + 1, fld], {"got": bytes(g.pack()).hex()[:200], "ref": want.hex()[:200]})
+        # byte-like arguments in every form a caller may hold them (bytes / bytearray / memoryview): packing twice gives the reference
+        # bytes both times and leaves the caller's buffer and the object's field untouched
+        for sdlen in range(0, 26):
+            sd = bytes((i * 5 + 2) & 0xFF for i in range(sdlen))
+            for form in (bytearray, memoryview):
+                for rk in (None, UUIDS[1]):
+                    arg = form(sd)
+                    acc.ev()
+                    want = ndr64.getkey_request(sd, rk, 361, 3, 5)
+                    try:
+                        g2 = Gm.GetKey(arg, rk, 361, 3, 5)
+                        outs = [bytes(g2.pack()), bytes(g2.pack()), bytes(Gm.GetKey(arg, rk, 361, 3, 5).pack())]
+                    except Exception as e:  # noqa: BLE001
+                        acc.violate(f"GetKey.forms.exc.{type(e).__name__}", ["GetKey-forms", sdlen, form.__name__, bool(rk)], {"exc": repr(e)})
+                        continue
+                    if bytes(arg) != sd or bytes(g2.target_sd) != sd:
+                        acc.violate("GetKey.forms.argument-mutated", ["GetKey-forms", sdlen, form.__name__, bool(rk)], {"arg_len_now": len(bytes(arg)), "field_len_now": len(bytes(g2.target_sd))})
+                    elif any(o != want for o in outs):
+                        acc.violate("GetKey.forms.bytes", ["GetKey-forms", sdlen, form.__name__, bool(rk)], {"which": [o == want for o in outs]})
         for l in (-(2**31), 2**31 - 1):
             chk(acc, "GetKey", [4, True, l, l, l], lambda l=l: Gm.GetKey(b"abcd", UUIDS[2], l, l, l), ndr64.getkey_request(b"abcd", UUIDS[2], l, l, l), Gm.GetKey.unpack)
         acc.sample({"GetKey": {"sd_len": 5, "root_key_id": None, "l0,l1,l2": [-1, -1, -1]}, "bytes": ndr64.getkey_request(b"\x01\x02\x03\x04\x05", None, -1, -1, -1).hex()})
@@ -252,7 +271,7 @@ def replay(case, seed, acc) -> None:
                 del acc.violations[k]
         acc.violation_count = sum(len(v) for v in acc.violations.values())
         return
-    fam = {"GetKey-repack": ["getkey"], "KDFParameters": ["kdfparams"], "FFCDHParameters": ["dhparams"], "FFCDHKey": ["dhkey"], "ECDHKey": ["eckey"], "KeyIdentifier": ["keyid"], "GetKey": ["getkey"], "resp": ["getkey_resp"], "resp-err": ["getkey_resp"]}
+    fam = {"GetKey-repack": ["getkey"], "GetKey-forms": ["getkey"], "KDFParameters": ["kdfparams"], "FFCDHParameters": ["dhparams"], "FFCDHKey": ["dhkey"], "ECDHKey": ["eckey"], "KeyIdentifier": ["keyid"], "GetKey": ["getkey"], "resp": ["getkey_resp"], "resp-err": ["getkey_resp"]}
     name = case[0]
     if name == "GroupKeyEnvelope":
         for p in range(4):
